@@ -10,6 +10,10 @@ Oracle   : per row, HedString(assembled row text).validate() (string level), the
            single ONSETS_UNORDERED warning; a table whose reserved tags (Def, Onset, Offset, Inset, Delay, Duration) are
            respelled in lower / upper / mixed case yields the same issues as the canonical spelling (HED tags are
            case-insensitive) modulo message text and the capitalisation style warning.
+           Parts close-onsets / equal-onsets: rows whose onsets are different numbers - however close (1e-4 apart at 1e3..1e5,
+           1e-6 apart at 10..100, 1e-8 at 33; the code documents a 1e-9 tolerance) - are separate time points and get the
+           ordinary row checks; rows whose onsets are the same number written differently ("2", "2.0", "2.000") are ONE time
+           point: the errors reported for them are the string-level errors of their joined annotation.
 """
 import collections
 import io
@@ -42,6 +46,7 @@ L_MULTI = "C07.delay.several_groups_in_one_row"     # every Delay group of a row
 L_SHUFFLE = "C07.shuffle.invariant"
 L_UNORDERED = "C07.shuffle.unordered_warning"
 L_NAONSET = "C07.onset.na_row_validated"             # new: rows with n/a onset are mis-indexed after sorting
+L_TOGETHER = "C07.onset.equal_rows_together"         # rows whose onsets are the same number (however written) form one time point
 ROWLESS_OK = {"ONSETS_UNORDERED", "HED_UNKNOWN_COLUMN"}
 TEMPORAL_TAGS = {"onset", "offset", "inset"}
 TIME_TAGS = {"onset", "offset", "inset", "duration", "delay"}
@@ -489,6 +494,150 @@ def check_table(layout, rows, perms=None, raise_label=L_RAISES, eq_label=L_EQUAL
     return out
 
 
+# ------------------------------------------------------------------------------------------------ close / equal onsets
+CLOSE_PAIRS = [("Red, (Blue, Square)", "Red, (Blue, Square)"), ("Red", "Blue"), ("Red", "Red"),
+               ("(Def/MyDef, Onset)", "(Def/MyDef, Offset)"), ("(Def/MyDef, Onset), Green", "(Def/MyDef, Onset), Green"),
+               ("Red, Red", "Blue"), ("(Green, Large)", NA), ("Blech", "Blech")]
+CLOSE_BASES = [("1000", "0001", "0002", "0003"), ("2048", "0001", "0002", "0003"), ("4096", "5001", "5002", "5003"),
+               ("8000", "0001", "0002", "0003"), ("12345", "6781", "6782", "6783"), ("15999", "9997", "9998", "9999"),
+               ("50000", "0001", "0002", "0003"), ("99999", "1234", "1235", "1236"),
+               ("10", "000001", "000002", "000003"), ("64", "000001", "000002", "000003"), ("99", "999997", "999998", "999999"),
+               ("33", "33333301", "33333302", "33333303")]           # 1e-8 apart: still beyond the documented 1e-9 tolerance
+
+
+def close_onset_tables(w):
+    """tables whose DISTINCT onsets are very close at large magnitudes (1e-4 apart at 1e3..1e5, 1e-6 apart at 10..100, 1e-8 at
+    33): every row is its own time point, so all the ordinary row checks apply (and all row permutations)"""
+    tables = []
+    for bi, (whole, f1, f2, f3) in enumerate(CLOSE_BASES):
+        o1, o2, o3 = ("%s.%s" % (whole, f) for f in (f1, f2, f3))
+        later = "%d.7" % (int(whole) + 1)
+        for pi, (a, b) in enumerate(CLOSE_PAIRS):
+            for layout in ("hed1", "tsv1"):
+                if w.quick and (bi + pi + (layout == "tsv1")) % 2:
+                    continue
+                cell = lambda c: "" if (c == NA and layout == "tsv1" and pi % 2) else c
+                specs = [[("1.5", "Green"), (o1, a), (o2, b), (later, "Black")],          # two close rows inside a longer file
+                         [(o1, a), (o2, b)],
+                         [(o1, a), (o2, b), (o3, a)]]                                     # three close rows
+                for si, spec in enumerate(specs):
+                    if w.quick and si and (bi + pi + si) % 3:
+                        continue
+                    rows = build_rows(layout, [{"HED": cell(c)} for _, c in spec], [o for o, _ in spec])
+                    tables.append({"layout": layout, "rows": rows, "key": ("close", layout, whole, pi, si)})
+    return tables
+
+
+EQUAL_SPELLINGS = [("2", "2.0", "2.000"), ("8000.5", "8000.50", "8000.500"), ("0", "0.0", "00.00"), ("1e1", "10", "10.0"),
+                   ("2048.0001", "2048.00010", "02048.0001"), ("12.5", "1.25e1", "12.50")]
+EQUAL_CELLS = [("Red", "Blue", "(Green, Square)"), ("Red", "Red", "Blue"), ("(Blue, Square)", "(Blue, Square)", "(Blue, Square)"),
+               ("Red", NA, "Red"), ("Red, Blue", "Green", "Blue"), ("(Def/MyDef, Onset)", "Green", "(Def/Other, Onset)"),
+               ("(Def/MyDef, Onset)", "(Def/MyDef, Onset)", "Red"), ("(Red, Large)", "(Large, Red)", NA), ("Blech", "Red", "Red")]
+
+
+def equal_onset_tables(w):
+    """rows whose onsets are the SAME number written differently ("2", "2.0", "2.000"): one time point; next to rows at other
+    (also very close) onsets; 2 or 3 rows per time point; all row orders"""
+    tables = []
+    for si, sp in enumerate(EQUAL_SPELLINGS):
+        near = "%s1" % sp[1] if "." in sp[1] and "e" not in sp[1] else None      # e.g. 2.01 - a distinct onset right after
+        for ci, cells in enumerate(EQUAL_CELLS):
+            for layout in ("hed1", "tsv1"):
+                if w.quick and (si + ci + (layout == "tsv1")) % 2:
+                    continue
+                specs = [[(sp[0], cells[0]), (sp[1], cells[1])],
+                         [(sp[0], cells[0]), (sp[1], cells[1]), (sp[2], cells[2])],
+                         [(sp[0], cells[0]), (sp[2], cells[1]), ("99999.5", cells[2])],
+                         [("-3.5", cells[2]), (sp[1], cells[0]), (sp[0], cells[1])]]
+                if near:
+                    specs.append([(sp[0], cells[0]), (sp[1], cells[1]), (near, cells[1]), (near + "0", cells[0])])
+                for ti, spec in enumerate(specs):
+                    if w.quick and ti and (si + ci + ti) % 3:
+                        continue
+                    rows = build_rows(layout, [{"HED": c} for _, c in spec], [o for o, _ in spec])
+                    n = len(rows)
+                    perms = list(itertools.permutations(range(n))) if n <= 3 else \
+                        [list(range(n)), list(reversed(range(n))), [1, 0, 3, 2], [2, 0, 3, 1]]
+                    tables.append({"layout": layout, "rows": rows, "key": ("equal", layout, si, ci, ti), "mode": "together",
+                                   "perms": perms})
+    return tables
+
+
+def check_together(layout, rows, order):
+    """one file whose rows may share onsets.  Rows with the same onset NUMBER are one time point: when all their cells are
+    error-free, the errors reported for the rows of the time point are exactly the string-level errors of their joined
+    annotation (labelled with a row of that time point); rows with different onsets are judged separately."""
+    lay = LAYOUTS[layout]
+    adj = 2
+    file_rows = [rows[k] for k in order]
+    n = len(file_rows)
+    res = []
+    add = lambda clause, ok, obs=None, exp=None: res.append((clause, bool(ok), obs, exp))
+    issues, err = validate_file(layout, file_rows)
+    add(L_RAISES, err is None, err, "a list of issues, no exception")
+    if err is not None:
+        return res, None
+    spec = spec_rows(layout, file_rows)
+    onset_col = lay["columns"].index("onset")
+    times = [float(r[onset_col]) for r in file_rows]
+    bad = [(i["code"], i.get("ec_row")) for i in issues
+           if (i.get("ec_row") is None and i["code"] not in ROWLESS_OK)
+           or (i.get("ec_row") is not None and not (adj <= i["ec_row"] < n + adj))]
+    add(L_ROWLABEL, not bad, bad, f"ec_row in [{adj}, {n + adj - 1}] or a file-level code")
+    groups = collections.OrderedDict()
+    for k, t in enumerate(times):
+        groups.setdefault(t, []).append(k)
+    faulty_times = set()
+    for t, members in sorted(groups.items()):
+        texts = [spec[k]["text"] for k in members if spec[k]["text"]]
+        cell_bad = any(string_errors(c) for k in members for c in spec[k]["cols"].values())
+        got = collections.Counter(i["code"] for i in issues if _sev_error(i) and i.get("ec_row") is not None
+                                  and i["ec_row"] - adj in members)
+        info = {"onset": t, "file_rows": members, "row_labels": [k + adj for k in members], "texts": texts, "file": dict(got)}
+        if cell_bad:
+            faulty_times.add(t)      # "at least every error of every cell": no equality, no shuffle comparison for this time point
+            total = collections.Counter()
+            for k in members:
+                for c in spec[k]["cols"].values():
+                    total += string_errors(c)
+            add(L_CELLS, not (total - got), info, {"at_least": dict(total)})
+            continue
+        joined = ", ".join(texts)
+        want = string_errors(joined) if joined else collections.Counter()
+        extra, missing = got - want, want - got
+        ok = not missing and set(extra) <= {"TEMPORAL_TAG_ERROR"} and sum(extra.values()) <= len(temporal_groups(joined))
+        add(L_TOGETHER if len(members) > 1 else L_EQUAL, ok, info, {"string_level_of": joined, "codes": dict(want)})
+    n_un = sum(1 for i in issues if i["code"] == "ONSETS_UNORDERED")
+    want_un = 0 if all(times[k] <= times[k + 1] for k in range(n - 1)) else 1
+    add(L_UNORDERED, n_un == want_un, n_un, want_un)
+    # for the shuffle comparison the row label of an issue is replaced by the time point it belongs to
+    canon = collections.Counter()
+    for i in issues:
+        if i["code"] == "ONSETS_UNORDERED":
+            continue
+        r = i.get("ec_row")
+        if r is not None and 0 <= r - adj < n and times[r - adj] in faulty_times:
+            continue
+        canon[(i["code"], int(i["severity"]), None if r is None else times[r - adj] if 0 <= r - adj < n else f"bad{r}",
+               str(i.get("ec_column")))] += 1
+    return res, canon
+
+
+def check_table_together(layout, rows, perms):
+    out = []
+    base = None
+    for order in perms:
+        res, canon = check_together(layout, rows, list(order))
+        if base is None:
+            base = canon
+        elif base is not None and canon is not None:
+            diff = (canon - base) + (base - canon)
+            res.append((L_SHUFFLE, not diff, [list(map(str, k)) for k in list(diff)[:4]],
+                        "same issues per time point as the file in its first row order"))
+        out.append((list(order), res))
+    return out
+
+
 # ------------------------------------------------------------------------------------------------ jobs
 def _job(job):
     _env()
@@ -496,8 +645,11 @@ def _job(job):
     per = {}
     for tb in job["tables"]:
         layout, rows = tb["layout"], tb["rows"]
-        results = check_table(layout, rows, tb.get("perms"), tb.get("raise_label", L_RAISES), tb.get("eq_label", L_EQUAL),
-                              tb.get("temporal_label", L_TEMPORAL), tb.get("canon_rows"))
+        if tb.get("mode") == "together":
+            results = check_table_together(layout, rows, tb["perms"])
+        else:
+            results = check_table(layout, rows, tb.get("perms"), tb.get("raise_label", L_RAISES), tb.get("eq_label", L_EQUAL),
+                                  tb.get("temporal_label", L_TEMPORAL), tb.get("canon_rows"))
         for order, res in results:
             out["n"] += 1
             out["keys"].append((tb["key"], tuple(order)))
@@ -508,7 +660,7 @@ def _job(job):
                 if not ok:
                     per[clause] = per.get(clause, 0) + 1
                     if per[clause] <= 2:
-                        out["fails"].append((clause, {"layout": layout, "rows": rows, "order": order,
+                        out["fails"].append((clause, {"layout": layout, "rows": rows, "order": order, "mode": tb.get("mode"),
                                                       "raise_label": tb.get("raise_label", L_RAISES),
                                                       "eq_label": tb.get("eq_label", L_EQUAL),
                                                       "temporal_label": tb.get("temporal_label", L_TEMPORAL),
@@ -772,9 +924,26 @@ def run(w: Workload):
            + ("; 160 seeded sets of 3" if w.quick else "; all sets of 3") + "; ALL row permutations; each table also with Def, "
            "Onset, Offset, Inset, Delay, Duration respelled in lower, upper and mixed case"
            + (" (sets of 3: one of the three spellings)" if w.quick else ""), exhaustive=False, base_tables=len(dt))
+    ct = close_onset_tables(w)
+    n = _absorb(w, _par(_chunks(ct, 6)), counters)
+    w.part("close-onsets", cases=n, bound="%d onset bases (distinct onsets 1e-4 apart at 1000 .. 99999, 1e-6 apart at 10 / 64 / 99, "
+           "1e-8 apart at 33) x %d pairs of cells (equal tags, different tags, Onset then Offset of one definition, the same Onset "
+           "twice, a row-level error, n/a, a cell-level error) x 2-4 row files (two or three close rows, alone and inside a longer "
+           "file) x DataFrame / TSV text%s; ALL row permutations; every row is its own time point" %
+           (len(CLOSE_BASES), len(CLOSE_PAIRS), " (quick: half of the combinations)" if w.quick else ""),
+           exhaustive=not w.quick, base_tables=len(ct))
+    eqt = equal_onset_tables(w)
+    n = _absorb(w, _par(_chunks(eqt, 6)), counters)
+    w.part("equal-onsets", cases=n, bound="%d triples of spellings of one number (2 / 2.0 / 2.000, 1e1 / 10 / 10.0, leading zeros, "
+           "trailing zeros, exponent) x %d cell triples (different tags, equal tags, n/a, Onset markers of the same / different "
+           "definitions) x 5 file shapes (2-3 rows at the time point, next to far and to very close other onsets) x DataFrame / "
+           "TSV text%s; all row orders (4-row files: 4 orders); the rows of one time point are judged as their joined annotation"
+           % (len(EQUAL_SPELLINGS), len(EQUAL_CELLS), " (quick: half of the combinations)" if w.quick else ""),
+           exhaustive=not w.quick, base_tables=len(eqt))
     w.bounded[-1]["checks_per_clause"] = counters
     w.exhaustive = False
-    w.not_covered += ["rows sharing an onset (merged before validation) and Delay groups landing on another row's onset",
+    w.not_covered += ["Delay groups landing on another row's onset; rows sharing an onset other than in part equal-onsets (plain "
+                      "tags and Onset markers); onsets closer than the documented 1e-9 tolerance",
                       "temporal oracle on tables with invalid rows or with Delay groups other than plain top-level "
                       "'(..., Delay/<number> s|ms, ...)' groups (only invariance and the bound 'extra TEMPORAL_TAG_ERROR <= "
                       "temporal groups of the row' are checked there)",
@@ -793,6 +962,13 @@ def replay(w: Workload, case: dict):
     w.case(key="replay")
     n = len(inp["rows"])
     perms = [list(range(n))] + ([inp["order"]] if inp["order"] != list(range(n)) else [])
+    if inp.get("mode") == "together":
+        for order, res in check_table_together(inp["layout"], inp["rows"], perms):
+            if order == inp["order"]:
+                for cl, ok, obs, exp in res:
+                    if cl == clause and not ok:
+                        w.fail(cl, inp, obs, exp)
+        return
     for order, res in check_table(inp["layout"], inp["rows"], perms, inp.get("raise_label", L_RAISES),
                                   inp.get("eq_label", L_EQUAL), inp.get("temporal_label", L_TEMPORAL),
                                   inp.get("canon_rows")):
